@@ -110,7 +110,10 @@ def pit(obs, ens, random=False, cst=0.3, kind="rank", censor=0.):
 
     # Check sudo pits
     is_sudo = np.zeros(nforc).astype(bool)
-    idx = (obs < censor+EPS) & (np.sum(ens < censor + EPS, axis=1) > 0)
+    # (differences are compared with EPS: censor+EPS is censor itself
+    # for large thresholds and values at the threshold would be missed)
+    with np.errstate(invalid="ignore"):
+        idx = (obs - censor < EPS) & (np.sum(ens - censor < EPS, axis=1) > 0)
     is_sudo[idx] = True
 
     # Compute pits
